@@ -1,7 +1,7 @@
 (** C05 — dependencies gate readiness; failed parents cancel children.  Property theorems only.
     All statements quantify over EVERY good history (Deps.good_history: legal driver/worker messages,
     schema-valid client requests) of the batch-database model. *)
-From HailV Require Import Common.Prelude BatchDB.Model BatchDB.Legal BatchDB.DepsDef BatchDB.Deps BatchDB.DepsCorollaries.
+From HailV Require Import Common.Prelude BatchDB.Model BatchDB.Legal BatchDB.JobsWF BatchDB.DepsDef BatchDB.Deps BatchDB.DepsCorollaries BatchDB.JobChange.
 Open Scope Z_scope.
 
 (** A job of a committed update is Ready (or beyond) only after every one of its parents — also parents submitted
@@ -34,6 +34,51 @@ Theorem C05_failed_parent_cancels : forall ops, good_history ops ->
     j_cancelled x = true.
 Proof. intros ops G s x p y. apply failed_parent_cancels. apply DInv_reachable. exact G. Qed.
 Print Assumptions C05_failed_parent_cancels.
+
+(** ... and, unless it is always-run, it never runs: once a parent of a job of a committed update has ended without
+    success, the job is reported cancelled by is_job_cancelled for ever after and no later good step — scheduling,
+    creating / started reports, duplicates, late messages — moves it into Creating or Running, however the history
+    continues ([ext] arbitrary, [o] the step observed). *)
+Theorem C05_failed_parent_never_runs : forall ops ext o b j x p y,
+  good_history (ops ++ ext ++ [o]) ->
+  find_job (run ops) b j = Some x -> jcommitted (run ops) x = true -> j_always x = false ->
+  In p (parents_of (run ops) b j) -> find_job (run ops) b p = Some y ->
+  terminal (j_state y) = true -> j_state y <> Success ->
+  exists x1 x2, find_job (run (ops ++ ext)) b j = Some x1 /\ find_job (run (ops ++ ext ++ [o])) b j = Some x2 /\
+                is_job_cancelled (run (ops ++ ext ++ [o])) x2 = Some true /\
+                (j_state x2 = Creating \/ j_state x2 = Running -> j_state x2 = j_state x1).
+Proof.
+  intros ops ext o b j x p y G F C Al Hp Fy T NS.
+  pose proof (find_job_static_key _ _ _ _ F) as (B & J).
+  assert (Gp : good_history ops).
+  { unfold good_history in *. apply good_from_app in G. tauto. }
+  assert (Cx : j_cancelled x = true).
+  { apply (failed_parent_cancels (run ops) (DInv_reachable ops Gp) x p y); rewrite ?B, ?J; auto.
+    unfold find_job in F. apply find_some in F. tauto. }
+  destruct (cancelled_never_starts ops ext o b j x G F) as (x1 & x2 & F1 & F2 & _ & _ & C2 & Hs).
+  { split; [exact Al | left; exact Cx]. }
+  exists x1, x2. split; [exact F1|]. split; [exact F2|]. split; [|exact Hs].
+  apply (cancelled_job_is_cancelled _ b); [|exact C2].
+  apply (find_job_static_key _ _ _ _ F2).
+Qed.
+Print Assumptions C05_failed_parent_never_runs.
+
+(** Always-run children run regardless of their parents' outcomes: an always-run job that is Ready (its parents are all
+    terminal, by the first theorem — successful or not) is moved to Running by a scheduling message with a fresh attempt
+    on an active instance, answer rc 0, whatever its own cancelled mark and the cancellation marks of its groups; and
+    that message is a good step when the job's update is committed. *)
+Theorem C05_always_run_child_runs : forall s b j a i x y,
+  find_job s b j = Some x -> j_always x = true -> j_state x = Ready ->
+  find_attempt s b j a = None -> find_inst s i = Some y -> i_state y = IActive ->
+  (exists d, snd (step s (ScheduleJob b j a i)) = ok [0; d]) /\
+  (exists x', find_job (fst (step s (ScheduleJob b j a i))) b j = Some x' /\ j_state x' = Running /\ j_attempt x' = Some a) /\
+  (jcommitted s x = true -> good s (ScheduleJob b j a i)).
+Proof.
+  intros s b j a i x y F Al Rd Fa Fi Ia.
+  destruct (always_run_schedulable s b j a i x y F Al Rd Fa Fi Ia) as (H1 & H2 & H3).
+  split; [exact H1|]. split; [|exact H3]. eexists. split; [exact H2|]. split; reflexivity.
+Qed.
+Print Assumptions C05_always_run_child_runs.
 
 (** Non-vacuity: in the demo history (Deps.demo_history) job 2 depends on job 1, job 1 fails, and job 3 — in a
     second update — depends on job 2: after the history job 2 is cancelled and terminal, job 3 (always_run) is Ready. *)
